@@ -15,6 +15,8 @@ import (
 )
 
 type Options struct {
+	SampleEvery  int // keep every n-th query of each worker for the z3 cross-check (0 = off)
+	SampleOffset int
 	Workers  int
 	TlimitMs int
 	MaxPaths int
@@ -65,6 +67,7 @@ type Result struct {
 	NontrivPaths int // paths that reached an assertion needing the solver
 	KnownHits    []string
 	Witnesses    []WitnessRec
+	Samples2     []SampledQuery // queries kept for the differential pass
 }
 
 type LabelStat struct {
@@ -129,8 +132,10 @@ func (p *Program) Run(entry string, opt Options) *Result {
 				mu.Unlock()
 				return
 			}
+			solver.SampleEvery, solver.SampleOffset, solver.SampleMax = opt.SampleEvery, opt.SampleOffset+w, 4
 			defer func() {
 				mu.Lock()
+				res.Samples2 = append(res.Samples2, solver.Samples...)
 				res.Queries += solver.Queries
 				res.NSat += solver.NSat
 				res.NUnsat += solver.NUnsat
